@@ -156,6 +156,19 @@ def c_babel_table(rng, W):
             'pol_ml': rng.random() < 0.7, 'probe_ml': rng.random() < 0.7}
 
 
+def c_ienc(rng, W):
+    # option ienc governs how \LTinput files are decoded
+    a = W.word()
+    f1, f2 = _name(rng, 'enc') + '.tex', _name(rng, 'enc') + '.tex'
+    return {'name': 'input_encoding',
+            'pol': '\\LTinput{%s}\nText \\encmac.\n' % f1,
+            'pol_opts': {'ienc': 'latin-1'},
+            'probe': '\\LTinput{%s}\n%s \\encmac.\n' % (f2, a),
+            'files': {f1: {'text': '\\newcommand{\\encmac}{Grüße}\n',
+                           'enc': 'latin-1'},
+                      f2: {'text': '\\newcommand{\\encmac}{Grüße ж}\n'}}}
+
+
 def c_lang_option(rng, W):
     a, b = W.word(), W.word()
     return {'name': 'language_option',
@@ -283,7 +296,7 @@ def c_recovery(rng, W):
 
 CARRIERS = [c_newcommand, c_newcommand, c_renewcommand, c_newtheorem, c_package,
             c_package, c_cleveref, c_docclass, c_language, c_language,
-            c_lang_option, c_babel_table, c_babel_table, c_rotation, c_rotation, c_items, c_glossary,
+            c_lang_option, c_ienc, c_babel_table, c_babel_table, c_rotation, c_rotation, c_items, c_glossary,
             c_glossary, c_flows, c_unknowns, c_option_flag, c_option_flag,
             c_modparms, c_recovery]
 
